@@ -567,8 +567,14 @@ func (bp *baseProcessor) checkHeaderBodyCorrelation(miniBlockHeaders []block.Min
 		if !ok {
 			return process.ErrHeaderBodyMismatch
 		}
+		// a miniblock header can be matched by one single miniblock from the body
+		delete(mbHashesFromHdr, string(mbHash))
 
 		if mbHdr.TxCount != uint32(len(miniBlock.TxHashes)) {
+			return process.ErrHeaderBodyMismatch
+		}
+
+		if mbHdr.Type != miniBlock.Type {
 			return process.ErrHeaderBodyMismatch
 		}
 
